@@ -609,6 +609,37 @@ Definition client13 (ck sk : conn) (csuites : list N) (h : hello) (f : server_fl
   ROk (mkOut v13 (f_suite f) (f_group f) (f_sig f) cs true profile mki (f_mki_peer f) 0 cid false true ccert
              (f_cert_req f) (h_exts h) (f_sh_exts f) (f_key f)).
 
+(* ---- which of client13's refusals reach the server.
+   processFlight3ServerHello (extensions of the ServerHello, suite, key share) fails before the handshake keys are
+   installed: the alert goes out in plaintext.  handleFlight3ProtectedHandshake (EncryptedExtensions, use_srtp,
+   CertificateVerify scheme, certificate) fails through abortFlight3, which calls state.ResetConnectionIDs() BEFORE the
+   FSM writes the alert: the (protected, since 5aa3cd1) alert is sealed without the connection ID the server negotiated.
+   A server that negotiated a non-empty CID requires it on every protected record, drops the alert and keeps waiting. *)
+Definition client13_hello_ok (csuites : list N) (h : hello) (f : server_flight) : bool :=
+  validate_response_exts h (f_sh_exts f)
+  && (known_suite (f_suite f) && s_supports (f_suite f) v13 && mem (f_suite f) csuites)
+  && mem (f_group f) (h_shares h).
+
+Definition client13_flight_ok (ck sk : conn) (h : hello) (f : server_flight) : bool :=
+  validate_response_exts h (f_ee_exts f)
+  && (match validate_srtp (h_srtp h) (if f_srtp f =? 0 then None else Some (f_srtp f, f_mki_echo f)) (c_srtp (k_cfg ck))
+      with ROk _ => true | _ => false end)
+  && mem (f_sig f) (k_sigs ck)
+  && (c_skip_verify (k_cfg ck) || (Bool.eqb (f_alt f) (c_sni (k_cfg ck)) && mem (c_chain_sig (k_cfg sk)) (cert_algs ck))).
+
+(* the server put a non-empty connection ID into its ServerHello and the client had offered the extension *)
+Definition server_cid_in_use (h : hello) (f : server_flight) : bool :=
+  match decide_cid h (f_cid_ext f) (f_rrc_ext f) with Some (_, sc, _) => nonempty sc | None => false end.
+
+(* THE SWITCH for the finding "DTLS 1.3 client alert sealed without the negotiated connection ID" (NOT repaired: the
+   pinned test TestFlight3ParseClearsConnectionIDAfterInvalidEncryptedExtensions demands the cleared CID state at that
+   point).  [false] = the code: abortFlight3 clears the connection IDs before the alert is written.  [true] = the
+   alert is written under the negotiated connection IDs. *)
+Definition client13_abort_keeps_connection_ids : bool := false.
+
+Definition alert13_lost (keep : bool) (ck sk : conn) (csuites : list N) (h : hello) (f : server_flight) : bool :=
+  negb keep && server_cid_in_use h f && client13_hello_ok csuites h f && negb (client13_flight_ok ck sk h f).
+
 (* the server's processing of the client's last flight (flight4Parse / protected_flight.go) *)
 Definition server_finish (is13 : bool) (sk ck : conn) (o : outcome) : res outcome :=
   let s := k_cfg sk in
@@ -628,8 +659,15 @@ Inductive result := Ok (o : outcome) | Fail (who : side) (alert : N) | Silent (w
 Definition lift (who : side) {A} (r : res A) (k : A -> result) : result :=
   match r with ROk a => k a | RAlert x => Fail who x | RSilent => Silent who end.
 
+(* the client's verdict on the DTLS 1.3 server flight: an alert that is [lost] leaves the server waiting *)
+Definition lift_client13 (lost : bool) {A} (r : res A) (k : A -> result) : result :=
+  match r with
+  | RAlert x => if lost then Silent Client else Fail Client x
+  | _ => lift Client r k
+  end.
+
 (* [seeded] : an earlier association of the same two endpoints left a session in both stores *)
-Definition negotiate_conn (ck sk : conn) (seeded : bool) : result :=
+Definition negotiate_conn_sw (keep : bool) (ck sk : conn) (seeded : bool) : result :=
   let c := k_cfg ck in let s := k_cfg sk in
   (* HandshakeContext (server): LocalCipherSuites filtered by the certificate's key type *)
   let s_all := filter_for_key (c_key s) (k_suites sk) in
@@ -657,7 +695,7 @@ Definition negotiate_conn (ck sk : conn) (seeded : bool) : result :=
       lift Client (of_opt (select_version [v13] (k_min ck) (k_max ck)) g11_alert_protocol_version) (fun _ =>
       let csuites := filter_for_version v13 (k_suites ck) in
       if negb (nonempty csuites) then Silent Client else
-      lift Client (client13 ck sk csuites h f) (fun o =>
+      lift_client13 (alert13_lost keep ck sk csuites h f) (client13 ck sk csuites h f) (fun o =>
       lift Server (server_finish true sk ck o) Ok))
     end)
   else
@@ -672,12 +710,15 @@ Definition negotiate_conn (ck sk : conn) (seeded : bool) : result :=
       lift Server (server_finish false sk ck o) Ok))
     end)).
 
+Definition negotiate_conn : conn -> conn -> bool -> result := negotiate_conn_sw client13_abort_keeps_connection_ids.
+
 (* negotiate : the two option sets -> outcome.  None = one of the constructors rejects its configuration. *)
-Definition negotiate (c s : cfg) (seeded : bool) : option result :=
+Definition negotiate_sw (keep : bool) (c s : cfg) (seeded : bool) : option result :=
   match build true c, build false s with
-  | Some ck, Some sk => Some (negotiate_conn ck sk seeded)
+  | Some ck, Some sk => Some (negotiate_conn_sw keep ck sk seeded)
   | _, _ => None
   end.
+Definition negotiate : cfg -> cfg -> bool -> option result := negotiate_sw client13_abort_keeps_connection_ids.
 
 (* ------------------------------------------------------------------ sessions and the EMS policy *)
 
@@ -697,9 +738,10 @@ Record steering := mkSteer {
   t_ch1_strip_ems : bool;
   t_ch1_strip_sni : bool;
   t_sh_alpn : N;                       (* the ServerHello hook names this protocol (0 = untouched) *)
-  t_sh_suite : N                       (* the ServerHello hook names this cipher suite (0 = untouched) *)
+  t_sh_suite : N;                      (* the ServerHello hook names this cipher suite (0 = untouched) *)
+  t_sh_sessionid : bool                (* the ServerHello hook puts another session id into the message *)
 }.
-Definition no_steering : steering := mkSteer None None false false 0 0.
+Definition no_steering : steering := mkSteer None None false false 0 0 false.
 
 Definition remove_ext (x : N) (l : list N) : list N := filter (fun y => negb (y =? x)) l.
 
@@ -745,11 +787,14 @@ Definition negotiate12_steered (ck sk : conn) (seeded hv : bool) (t : steering) 
   (* commitFinalServerHello: the server's own view follows the FINAL ServerHello - its ALPN selection is the one
      committed (steer_flight), another cipher suite than the one the keys are derived for is refused *)
   lift Server (req ((t_sh_suite t =? 0) || (t_sh_suite t =? f_suite f0)) g11_alert_internal_error) (fun _ =>
+  (* flight4bGenerate (6fdd853): on a resumed handshake the echoed session id is the signal - a changed id is refused;
+     on a full handshake the server names the session as the final ServerHello does (nothing the outcome shows) *)
+  lift Server (req (negb (t_sh_sessionid t && f_resumed f0)) g11_alert_internal_error) (fun _ =>
   lift Client (of_opt (select_version [v12] (k_min ck) (k_max ck)) g11_alert_protocol_version) (fun _ =>
   let csuites := filter_for_version v12 (k_suites ck) in
   if negb (nonempty csuites) then Silent Client else
   lift Client (client12 ck sk csuites h2 f) (fun o =>
-  lift Server (server_finish false sk ck o) Ok))))).
+  lift Server (server_finish false sk ck o) Ok)))))).
 
 Definition negotiate_steered (c s : cfg) (seeded hv : bool) (t : steering) : option result :=
   match build true c, build false s with
